@@ -675,17 +675,21 @@ def push_client_hello(buf: Buffer, hello: ClientHello) -> None:
 
         # extensions
         with push_block(buf, 2):
-            with push_extension(buf, ExtensionType.KEY_SHARE):
-                push_list(buf, 2, partial(push_key_share, buf), hello.key_share)
+            if hello.key_share is not None:
+                with push_extension(buf, ExtensionType.KEY_SHARE):
+                    push_list(buf, 2, partial(push_key_share, buf), hello.key_share)
 
-            with push_extension(buf, ExtensionType.SUPPORTED_VERSIONS):
-                push_list(buf, 1, buf.push_uint16, hello.supported_versions)
+            if hello.supported_versions is not None:
+                with push_extension(buf, ExtensionType.SUPPORTED_VERSIONS):
+                    push_list(buf, 1, buf.push_uint16, hello.supported_versions)
 
-            with push_extension(buf, ExtensionType.SIGNATURE_ALGORITHMS):
-                push_list(buf, 2, buf.push_uint16, hello.signature_algorithms)
+            if hello.signature_algorithms is not None:
+                with push_extension(buf, ExtensionType.SIGNATURE_ALGORITHMS):
+                    push_list(buf, 2, buf.push_uint16, hello.signature_algorithms)
 
-            with push_extension(buf, ExtensionType.SUPPORTED_GROUPS):
-                push_list(buf, 2, buf.push_uint16, hello.supported_groups)
+            if hello.supported_groups is not None:
+                with push_extension(buf, ExtensionType.SUPPORTED_GROUPS):
+                    push_list(buf, 2, buf.push_uint16, hello.supported_groups)
 
             if hello.psk_key_exchange_modes is not None:
                 with push_extension(buf, ExtensionType.PSK_KEY_EXCHANGE_MODES):
@@ -987,10 +991,14 @@ def push_certificate_request(
         push_opaque(buf, 1, certificate_request.request_context)
 
         with push_block(buf, 2):
-            with push_extension(buf, ExtensionType.SIGNATURE_ALGORITHMS):
-                push_list(
-                    buf, 2, buf.push_uint16, certificate_request.signature_algorithms
-                )
+            if certificate_request.signature_algorithms is not None:
+                with push_extension(buf, ExtensionType.SIGNATURE_ALGORITHMS):
+                    push_list(
+                        buf,
+                        2,
+                        buf.push_uint16,
+                        certificate_request.signature_algorithms,
+                    )
 
             for extension_type, extension_value in certificate_request.other_extensions:
                 with push_extension(buf, extension_type):
